@@ -81,6 +81,13 @@ BlockB2 == { Case("B", Ext(Plain, "mycrate", "::m::MyThing", "MyThing", Req1, TR
              k \in CfgKinds, pol \in {"generate", "allow", "deny"},
              def \in {"Thing", "MyThing", "My", "MyThingy"} }
 
+(* the annotated definition also carries a `default` keyword: substitution and the wrapper decision
+   do not depend on it *)
+BlockB3 == { Case("B", Ext(Plain, "mycrate", "::m::Thing", "Thing", Req1, TRUE, TRUE, ps),
+                  CfgOf(k, NoRename), pol, def) @@ [dflt |-> TRUE] :
+             k \in CfgKinds, pol \in {"generate", "allow", "deny"}, def \in {"Thing", "Ext"},
+             ps \in { << >>, <<"P">> } }
+
 Malformed == {"missing-version", "bad-requirement", "no-separator", "wrong-head", "hyphen-head"}
 ExtBad(kind, cr) ==
     CASE kind = "missing-version" -> Ext(cr, cr.ident, "::m::Thing", "Thing", Req1, TRUE, FALSE, << >>)
@@ -94,7 +101,7 @@ BlockC == { Case("C", ExtBad(kind, cr), CfgOf(k, NoRename), pol, "Ext") :
 (* hyphen-head on a crate without a hyphen is well formed: keep only real defects *)
 BlockC2 == { x \in BlockC : ~WellFormedExt(x.ext) }
 
-Cases == BlockA \cup BlockB \cup BlockB2 \cup BlockC2
+Cases == BlockA \cup BlockB \cup BlockB2 \cup BlockB3 \cup BlockC2
 
 Init == c \in Cases
 Next == UNCHANGED c
